@@ -1815,3 +1815,296 @@ Example exchange_nonvacuous :
        [XSend TWsgi (Some 0) xcase0 xsets; XSend TWsgi None xcase0 xquiet; XSend TWsgi (Some 1) xcase0 xquiet; XSend TRequests (Some 0) xcase0 xquiet]
      = [XSend TWsgi (Some 0) xcase0 xsets].
 Proof. cbv zeta. repeat split; vm_compute; reflexivity. Qed.
+
+(* ------------------------------------------------------------------------------------------------ *)
+(* N. application/x-www-form-urlencoded bodies (Model section 15)                                     *)
+(* ------------------------------------------------------------------------------------------------ *)
+(* safe sets for which the form decoder reads quote_plus(s, safe) back and fields cannot be confused *)
+Definition safe_ok (safe : N -> bool) : Prop :=
+  forall b, safe b = true -> b < 128 /\ b <> 37 /\ b <> 43 /\ b <> 32 /\ b <> 38 /\ b <> 61.
+
+Lemma form_safe_ok t : safe_ok (form_safe t).
+Proof.
+  intros b H. destruct t; cbn [form_safe] in H; try (unfold no_safe in H; discriminate).
+  unfold werkzeug_safe in H. apply mem_spec in H. cbn [In] in H. lia.
+Qed.
+
+Definition fqb (safe : N -> bool) (b : N) : str := sp_to_plus (quote_byte (fun b => is_sp b || safe b) b).
+
+Lemma hexd_range n : n < 16 -> hexd n <> 32 /\ hexd n <> 38 /\ hexd n <> 61 /\ hexd n <> 43.
+Proof. intros H; unfold hexd; destruct (n <? 10) eqn:E; lia. Qed.
+
+Lemma fqb_cases safe b :
+  safe_ok safe -> b < 256 ->
+  (b = 32 /\ fqb safe b = [43])
+  \/ (always_safe b = true /\ fqb safe b = [b])
+  \/ (b < 128 /\ b <> 37 /\ b <> 43 /\ b <> 32 /\ b <> 38 /\ b <> 61 /\ fqb safe b = [b])
+  \/ (fqb safe b = pct_byte b).
+Proof.
+  intros Hs Hb. unfold fqb, quote_byte, is_sp.
+  destruct (always_safe b) eqn:Ea.
+  - right; left. split; [reflexivity|]. apply always_safe_props in Ea. cbn [orb sp_to_plus map].
+    destruct (b =? 32) eqn:E; [lia | reflexivity].
+  - cbn [orb]. destruct (b =? 32) eqn:E.
+    + left. apply N.eqb_eq in E; subst b. split; reflexivity.
+    + cbn [orb]. destruct (safe b) eqn:Es.
+      * right; right; left. destruct (Hs b Es) as (H1 & H2 & H3 & H4 & H5 & H6).
+        repeat (split; [assumption|]). cbn [sp_to_plus map]. rewrite E. reflexivity.
+      * right; right; right. unfold pct_byte. cbn [sp_to_plus map].
+        rewrite !hexd_not_sp by lia. reflexivity.
+Qed.
+
+Lemma fqb_decodes safe b r :
+  safe_ok safe -> b < 256 -> pct_bytes true (fqb safe b ++ r) = omap (cons b) (pct_bytes true r).
+Proof.
+  intros Hs Hb. destruct (fqb_cases safe b Hs Hb) as [[-> ->] | [[Ha ->] | [(H1 & H2 & H3 & H4 & H5 & H6 & ->) | ->]]].
+  - cbn [app pct_bytes]. cbn [N.eqb Pos.eqb N.leb N.compare Pos.compare Pos.compare_cont andb].
+    destruct (pct_bytes true r); reflexivity.
+  - cbn [app]. apply pct_bytes_safe; exact Ha.
+  - cbn [app pct_bytes]. destruct (b =? 37) eqn:E1; [lia|]. destruct (128 <=? b) eqn:E2; [lia|].
+    destruct (b =? 43) eqn:E3; [lia|]. rewrite andb_false_r. destruct (pct_bytes true r); reflexivity.
+  - apply pct_bytes_pct_byte; exact Hb.
+Qed.
+
+Lemma always_safe_no_sep b : always_safe b = true -> b <> 38 /\ b <> 61.
+Proof.
+  unfold always_safe, is_upper, is_lower, is_digit, mem, existsb. intros H.
+  repeat rewrite ?orb_true_iff, ?andb_true_iff, ?N.leb_le, ?N.eqb_eq in H. lia.
+Qed.
+
+Lemma fqb_free safe b c : safe_ok safe -> b < 256 -> c = 38 \/ c = 61 -> ~ In c (fqb safe b).
+Proof.
+  intros Hs Hb Hc. destruct (fqb_cases safe b Hs Hb) as [[-> ->] | [[Ha ->] | [(H1 & H2 & H3 & H4 & H5 & H6 & ->) | ->]]].
+  - intros [H | []]; lia.
+  - apply always_safe_no_sep in Ha. intros [H | []]; lia.
+  - intros [H | []]; lia.
+  - unfold pct_byte. assert (b / 16 < 16) by lia. assert (b mod 16 < 16) by lia.
+    pose proof (hexd_range (b / 16) H). pose proof (hexd_range (b mod 16) H0).
+    intros [Hi | [Hi | [Hi | []]]]; lia.
+Qed.
+
+Lemma sp_to_plus_flat safe bs : sp_to_plus (flat_map (quote_byte (fun b => is_sp b || safe b)) bs) = flat_map (fqb safe) bs.
+Proof.
+  induction bs as [|b bs IH]; [reflexivity|]. cbn [flat_map]. rewrite sp_to_plus_app, IH. reflexivity.
+Qed.
+
+Lemma fqb_flat_decodes safe bs :
+  safe_ok safe -> Forall (fun b => b < 256) bs -> pct_bytes true (flat_map (fqb safe) bs) = Some bs.
+Proof.
+  intros Hs. induction 1 as [|b bs Hb _ IH]; [reflexivity|].
+  cbn [flat_map]. rewrite fqb_decodes, IH by assumption. reflexivity.
+Qed.
+
+Lemma fqb_flat_free safe bs c :
+  safe_ok safe -> Forall (fun b => b < 256) bs -> c = 38 \/ c = 61 -> ~ In c (flat_map (fqb safe) bs).
+Proof.
+  intros Hs HF Hc. induction HF as [|b bs Hb _ IH]; [intros []|].
+  cbn [flat_map]. intros Hin. apply in_app_or in Hin. destruct Hin as [Hin | Hin]; [|exact (IH Hin)].
+  exact (fqb_free safe b c Hs Hb Hc Hin).
+Qed.
+
+(* quote_plus(s, safe): read back by the form decoder; free of ampersand and equals sign *)
+Lemma fq_spec safe s q :
+  safe_ok safe -> fq safe s = Some q -> pct_decode_form q = Some s /\ ~ In 38 q /\ ~ In 61 q.
+Proof.
+  intros Hs. unfold fq, quote_with. destruct (utf8_encode s) as [bs|] eqn:E; [|discriminate].
+  cbn [omap]. intros H; injection H as <-. apply utf8_roundtrip in E. destruct E as [E1 E2].
+  rewrite sp_to_plus_flat. repeat split.
+  - unfold pct_decode_form. rewrite fqb_flat_decodes by assumption. cbn [obind]. exact E1.
+  - apply fqb_flat_free; auto.
+  - apply fqb_flat_free; auto.
+Qed.
+
+Lemma fq_defined safe s : forallb is_scalar s = true -> exists q, fq safe s = Some q.
+Proof. intros H. unfold fq, quote_with, utf8_encode. rewrite H. cbn [omap]. eexists; reflexivity. Qed.
+
+Lemma decode_field_enc safe kv e : safe_ok safe -> enc_pair safe kv = Some e -> decode_field e = Some kv /\ ~ In 38 e.
+Proof.
+  intros Hs. unfold enc_pair. destruct kv as [k v]. cbn [fst snd].
+  destruct (fq safe k) as [k'|] eqn:Ek; [|discriminate]. destruct (fq safe v) as [v'|] eqn:Ev; [|discriminate].
+  intros H; injection H as <-.
+  destruct (fq_spec safe k k' Hs Ek) as (Dk & Ak & Qk). destruct (fq_spec safe v v' Hs Ev) as (Dv & Av & Qv).
+  split.
+  - unfold decode_field. rewrite split_first_spec by exact Qk. cbn [rev app]. rewrite Dk. cbn [obind]. rewrite Dv. reflexivity.
+  - intros Hin. apply in_app_or in Hin. destruct Hin as [Hin | [Hin | Hin]]; [exact (Ak Hin) | lia | exact (Av Hin)].
+Qed.
+
+Lemma all_some_inv {A B} (f : A -> option B) l r :
+  all_some (map f l) = Some r -> length r = length l /\ Forall2 (fun x y => f x = Some y) l r.
+Proof.
+  revert r; induction l as [|x l IH]; intros r H; cbn [map all_some] in H.
+  - injection H as <-. split; [reflexivity | constructor].
+  - destruct (f x) as [y|] eqn:E; [|discriminate]. destruct (all_some (map f l)) as [r'|]; [|discriminate].
+    cbn [omap] in H. injection H as <-. destruct (IH r' eq_refl) as [H1 H2].
+    split; [cbn [length]; congruence | constructor; assumption].
+Qed.
+
+(* urlencode read back by the standard form decoder, for ALL lists of text pairs *)
+Lemma urlencode_roundtrip safe ps w : safe_ok safe -> urlencode safe ps = Some w -> decode_form w = Some ps.
+Proof.
+  intros Hs. unfold urlencode. destruct (all_some (map (enc_pair safe) ps)) as [es|] eqn:E; [|discriminate].
+  cbn [omap]. intros H; injection H as <-. apply all_some_inv in E. destruct E as [_ HF].
+  assert (Hd : Forall2 (fun kv e => decode_field e = Some kv /\ ~ In 38 e) ps es).
+  { induction HF as [|kv e ps es H1 _ IH]; constructor; [apply (decode_field_enc safe); assumption | exact IH]. }
+  assert (Hne : es <> [[]]).
+  { intros ->. inversion HF as [|kv e ps' es' H1 H2]; subst. unfold enc_pair in H1.
+    destruct (fq safe (fst kv)); [|discriminate]. destruct (fq safe (snd kv)); [|discriminate].
+    injection H1 as H1. destruct s; discriminate. }
+  unfold decode_form. rewrite split_list_join.
+  - clear Hne HF. induction Hd as [|kv e ps es [H1 _] _ IH]; [reflexivity|].
+    cbn [map all_some]. rewrite H1, IH. reflexivity.
+  - exact Hne.
+  - clear Hne HF. induction Hd as [|kv e ps es [_ H2] _ IH]; constructor; assumption.
+Qed.
+
+Lemma urlencode_defined safe ps :
+  forallb (fun kv => forallb is_scalar (fst kv) && forallb is_scalar (snd kv)) ps = true -> exists w, urlencode safe ps = Some w.
+Proof.
+  intros H. unfold urlencode.
+  assert (E : exists es, all_some (map (enc_pair safe) ps) = Some es).
+  { induction ps as [|[k v] ps IH]; [eexists; reflexivity|]. cbn [forallb fst snd] in H. apply andb_true_iff in H. destruct H as [H1 H2].
+    apply andb_true_iff in H1. destruct H1 as [Hk Hv]. destruct (IH H2) as [es Ees].
+    destruct (fq_defined safe _ Hk) as [k' Ek]. destruct (fq_defined safe _ Hv) as [v' Ev].
+    assert (Ee : enc_pair safe (k, v) = Some (k' ++ 61 :: v')) by (unfold enc_pair; cbn [fst snd]; rewrite Ek, Ev; reflexivity).
+    cbn [map all_some]. rewrite Ee, Ees. eexists; reflexivity. }
+  destruct E as [es ->]. eexists; reflexivity.
+Qed.
+
+(* the texts of the items of a dict / of a prepared array = the specification pairs *)
+Definition dict_items (d : list (str * pyv)) : list (fval * fval) := map (fun kv => (FLeaf (PStr (fst kv)), FLeaf (snd kv))) d.
+Definition dict_tuples (d : list (str * pyv)) : list fval := map (fun kv => FTuple (FLeaf (PStr (fst kv))) (FLeaf (snd kv))) d.
+
+Lemma texts_of_dict d : texts_of (dict_items d) = Some (pairs_of_dict d).
+Proof.
+  unfold texts_of, dict_items. rewrite map_map.
+  rewrite (all_some_map _ (fun kv : str * pyv => leaf_pair (fst kv) (snd kv))).
+  - cbn [omap]. unfold pairs_of_dict. rewrite flat_map_concat_map. reflexivity.
+  - intros [k p] _. cbn [fst snd]. unfold pair_text, key_text. cbn [py_str]. destruct p; reflexivity.
+Qed.
+
+Lemma dicts_of_spec l ds : dicts_of l = Some ds -> l = map FDict ds.
+Proof.
+  unfold dicts_of. revert ds; induction l as [|x l IH]; intros ds H; cbn [map all_some] in H.
+  - injection H as <-. reflexivity.
+  - destruct x as [p|d|a b|l']; try discriminate. destruct (all_some _) as [r|]; [|discriminate].
+    cbn [omap] in H. injection H as <-. cbn [map]. f_equal. apply IH. reflexivity.
+Qed.
+
+Lemma prepare_dicts ds : flat_map prep_item (map FDict ds) = dict_tuples (concat ds).
+Proof.
+  induction ds as [|d ds IH]; [reflexivity|]. cbn [map flat_map concat]. rewrite IH.
+  unfold dict_tuples. rewrite map_app. reflexivity.
+Qed.
+
+Lemma items_of_tuples d : kv_items_of (FList (dict_tuples d)) = Some (dict_items d).
+Proof.
+  cbn [kv_items_of]. unfold dict_tuples, dict_items. rewrite map_map. apply all_some_map. intros kv _. reflexivity.
+Qed.
+
+Lemma pairs_scalar d :
+  dict_scalar d = true ->
+  forallb (fun kv : str * str => forallb is_scalar (fst kv) && forallb is_scalar (snd kv)) (pairs_of_dict d) = true.
+Proof.
+  unfold dict_scalar, pairs_of_dict. induction d as [|[k p] d IH]; [reflexivity|]. cbn [forallb flat_map fst snd].
+  intros H. apply andb_true_iff in H. destruct H as [H1 H2]. apply andb_true_iff in H1. destruct H1 as [Hk Hp].
+  rewrite forallb_app, (IH H2), andb_true_r. unfold pyv_scalar in Hp.
+  destruct p as [|b|z|s]; cbn [leaf_pair forallb fst snd]; try reflexivity; rewrite Hk, Hp; reflexivity.
+Qed.
+
+Definition wire_of_pairs (t : transport) (ps : list (str * str)) : fwire :=
+  match urlencode (form_safe t) ps with Some s => WBody s | None => WEncodeError end.
+
+(* the wire of a form value prepared once = urlencode of its specification pairs *)
+Lemma form_wire_prepared t v :
+  form_shape v = true -> wsgi_array_form t v = false ->
+  exists ps, pairs_of v = Some ps /\ form_wire t (prepare_urlencoded v) = wire_of_pairs t ps.
+Proof.
+  unfold form_shape. destruct v as [p|d|a b|l]; cbn [pairs_of]; try discriminate.
+  - intros _ _. exists (pairs_of_dict d). split; [reflexivity|]. cbn [prepare_urlencoded].
+    assert (E : form_wire t (FDict d) = encode_items (form_safe t) (dict_items d)) by (destruct t; reflexivity).
+    rewrite E. unfold encode_items. rewrite texts_of_dict. reflexivity.
+  - destruct (dicts_of l) as [ds|] eqn:Ed; [|discriminate]. cbn [omap]. intros _ Hw.
+    exists (pairs_of_dict (concat ds)). split; [reflexivity|].
+    apply dicts_of_spec in Ed. subst l. cbn [prepare_urlencoded]. rewrite prepare_dicts.
+    assert (E : t <> TWsgi \/ ds = []).
+    { destruct t; try (left; discriminate). right. destruct ds; [reflexivity | discriminate]. }
+    destruct E as [E | ->]; [|destruct t; reflexivity].
+    assert (E2 : form_wire t (FList (dict_tuples (concat ds)))
+                 = match kv_items_of (FList (dict_tuples (concat ds))) with
+                   | Some items => encode_items (form_safe t) items | None => WUnmodelled end)
+      by (destruct t; [reflexivity | congruence | reflexivity]).
+    rewrite E2, items_of_tuples. unfold encode_items. rewrite texts_of_dict. reflexivity.
+Qed.
+
+Lemma form_encodable_pairs v ps :
+  form_encodable v = true -> pairs_of v = Some ps ->
+  forallb (fun kv : str * str => forallb is_scalar (fst kv) && forallb is_scalar (snd kv)) ps = true.
+Proof.
+  destruct v as [p|d|a b|l]; cbn [form_encodable pairs_of]; try discriminate.
+  - intros H E; injection E as <-. apply pairs_scalar; exact H.
+  - destruct (dicts_of l) as [ds|]; [|discriminate]. cbn [omap]. intros H E; injection E as <-. apply pairs_scalar; exact H.
+Qed.
+
+(* MAIN: whatever the serializer of the code puts on the wire for a form value prepared once is read back, by the standard
+   decoder, as the pairs the value stands for *)
+Lemma form_body_roundtrip t v w :
+  form_shape v = true -> wsgi_array_form t v = false ->
+  form_path ser_as_is t v = WBody w -> decode_form w = pairs_of v.
+Proof.
+  intros Hs Hw. destruct (form_wire_prepared t v Hs Hw) as (ps & Ep & Ew).
+  unfold form_path, ser_as_is. rewrite Ew, Ep. unfold wire_of_pairs.
+  destruct (urlencode (form_safe t) ps) as [s|] eqn:E; [|discriminate]. intros H; injection H as <-.
+  exact (urlencode_roundtrip _ _ _ (form_safe_ok t) E).
+Qed.
+
+(* and it IS a body whenever every text can be encoded *)
+Lemma form_body_sent t v :
+  form_shape v = true -> wsgi_array_form t v = false -> form_encodable v = true ->
+  exists ps w, pairs_of v = Some ps /\ form_path ser_as_is t v = WBody w /\ decode_form w = Some ps.
+Proof.
+  intros Hs Hw He. destruct (form_wire_prepared t v Hs Hw) as (ps & Ep & Ew).
+  destruct (urlencode_defined (form_safe t) ps (form_encodable_pairs v ps He Ep)) as [w E].
+  exists ps, w. split; [exact Ep|]. split.
+  - unfold form_path, ser_as_is. rewrite Ew. unfold wire_of_pairs. rewrite E. reflexivity.
+  - exact (urlencode_roundtrip _ _ _ (form_safe_ok t) E).
+Qed.
+
+(* the serializer of the code adds no preparation: generation -> wire applies prepare_urlencoded exactly once; objects are
+   fixed points of prepare_urlencoded, so for them even the sentinel rule changes nothing *)
+Lemma form_prepared_once t v :
+  form_path ser_as_is t v = form_wire t (prepare_urlencoded v)
+  /\ (forall d, form_path ser_prepares_again t (FDict d) = form_path ser_as_is t (FDict d)).
+Proof. split; [reflexivity | intros d; reflexivity]. Qed.
+
+(* witnesses *)
+Definition f_tag : str := [116;97;103].
+Definition f_zero : str := [48].
+Definition f_tag0 : fval := FList [FDict [(f_tag, PStr f_zero)]].      (* [{tag: 0}] with the text 0 *)
+Definition f_tag0_wire : str := f_tag ++ [61] ++ f_zero.              (* tag=0 *)
+(* %28%27tag%27%2C+%270%27%29=arbitrary-value *)
+Definition f_tag0_twice : str :=
+  [37;50;56;37;50;55] ++ f_tag ++ [37;50;55;37;50;67;43;37;50;55;48;37;50;55;37;50;57;61] ++ s_arbitrary.
+
+Lemma form_wsgi_array_refuted :
+  form_shape f_tag0 = true /\ form_encodable f_tag0 = true /\ wsgi_array_form TWsgi f_tag0 = true
+  /\ form_path ser_as_is TWsgi f_tag0 = WRaises
+  /\ form_path ser_as_is TRequests f_tag0 = WBody f_tag0_wire /\ form_path ser_as_is TAsgi f_tag0 = WBody f_tag0_wire.
+Proof. vm_compute. repeat split; reflexivity. Qed.
+
+Lemma form_prepared_twice_sentinel_refuted :
+  form_shape f_tag0 = true /\ pairs_of f_tag0 = Some [(f_tag, f_zero)]
+  /\ prepare_urlencoded (prepare_urlencoded f_tag0) <> prepare_urlencoded f_tag0
+  /\ form_path ser_prepares_again TRequests f_tag0 = WBody f_tag0_twice
+  /\ form_path ser_prepares_again TAsgi f_tag0 = WBody f_tag0_twice
+  /\ decode_form f_tag0_twice <> pairs_of f_tag0
+  /\ form_path ser_as_is TRequests f_tag0 = WBody f_tag0_wire
+  /\ decode_form f_tag0_wire = pairs_of f_tag0.
+Proof. vm_compute. repeat split; try reflexivity; discriminate. Qed.
+
+Example form_nonvacuous :
+  let v := FList [FDict [([97;32;38], PStr [61;233;43]); ([110], PInt 5)]; FDict []; FDict [([97;32;38], PBool true); ([122], PNone)]] in
+  form_shape v = true /\ form_encodable v = true /\ wsgi_array_form TAsgi v = false
+  /\ pairs_of v = Some [([97;32;38], [61;233;43]); ([110], [53]); ([97;32;38], s_True)]
+  /\ form_path ser_as_is TAsgi v = WBody ([97;43;37;50;54;61;37;51;68;37;67;51;37;65;57;37;50;66;38;110;61;53;38;97;43;37;50;54;61] ++ s_True)
+  /\ form_path ser_as_is TWsgi (FDict [([97], PStr [33;47;32])]) = WBody [97;61;33;47;43].
+Proof. vm_compute. repeat split; reflexivity. Qed.
